@@ -4,6 +4,7 @@ import (
 	"encoding/hex"
 	"errors"
 	"fmt"
+	"sort"
 	"strconv"
 	"strings"
 	"time"
@@ -393,7 +394,13 @@ func (gn *GlobalNode) set(key string, change string) error {
 }
 
 func (gn *GlobalNode) update(changes config.StringMap) error {
-	for key, value := range changes.Fields {
+	sortedKeys := make([]string, 0, len(changes.Fields))
+	for k := range changes.Fields {
+		sortedKeys = append(sortedKeys, k)
+	}
+	sort.Strings(sortedKeys)
+	for _, key := range sortedKeys {
+		value := changes.Fields[key]
 		if err := gn.set(key, value); err != nil {
 			return err
 		}
